@@ -201,6 +201,40 @@ ASSUMPTIONS = [
     'R1, R7, R15; opaque Scope, Name, error constructors',
 ]
 
+# ---------------------------------------------------------------- numeric tokens (C07: a literal's integer and fraction digits; C06)
+# R26 (arm lifting): the block of ONE arm of the match in read_next_token, found by the text of its pattern and guard, becomes the body of a
+# method - the same mechanism as R4 for closures; what is dropped: the match itself, i.e. WHEN the arm is chosen (stated as the precondition)
+DIGIT_RUN = ('digits_from(old(self).input@, old(self).position as int)')
+UNIT['parts'] += [
+    {'kind': 'item', 'src': L, 'path': 'const DECIMAL_SEPARATOR'},
+    {'kind': 'vrs', 'file': 'lexer/numeric.vrs'},
+    lx('is_char_at', ret='r', props=['C06', 'C07'], requires=[('no_overflow', 'self.position + offset <= usize::MAX')],
+       ensures=[('the_character_there', 'r == (self.position + offset < self.input@.len() && self.input@[self.position + offset] == expected)')]),
+    lx('is_digit_at', ret='r', props=['C06', 'C07'], requires=[('no_overflow', 'self.position + offset <= usize::MAX')],
+       ensures=[('a_digit_there', 'r == (self.position + offset < self.input@.len() && g_digit(self.input@[self.position + offset]))')]),
+    {'kind': 'closure', 'src': L, 'path': "impl<'lexer> Lexer<'lexer>::fn read_next_token", 'key': 'lexer::Lexer::read_next_token#number', 'props': ['C06', 'C07'], 'auto_props': A + ['C07'], 'loops': 0, 'ret': 'r',
+     'closure_header': r'\[ch, _, _, _, _, _, _, _, _, _, _, _\] if is_digit\(ch\) => \{',
+     'signature': 'pub fn numeric_token(&mut self) -> Result<(TokenType, TokenValue)>', 'impl_header': "impl<'lexer> Lexer<'lexer> {",
+     'body_prefix': 'proof { reveal_strlit(""); }',
+     'requires': [('wf', WF0), ('at_a_digit', 'old(self).position < old(self).input@.len() && g_digit(old(self).input@[old(self).position as int])')],
+     'splices': [{'id': 'integer_digits', 'op': 'after', 'anchor': 'digits_before.push_str(&self.consume_digits());',
+                  'text': 'let ghost mid = self.position as int;\nproof { assert(digits_before@ =~= old(self).input@.subrange(old(self).position as int, mid)); assert(is_digit_run(self.input@, old(self).position as int, mid)); assert(mid > old(self).position); }'},
+                 {'id': 'fraction_digits', 'op': 'after', 'anchor': 'digits_after.push_str(&self.consume_digits());',
+                  'text': 'proof { assert(digits_after@ =~= old(self).input@.subrange(mid + 1, self.position as int)); assert(is_digit_run(self.input@, mid + 1, self.position as int)); }'},
+                 {'id': 'literal', 'op': 'before', 'anchor': 'Ok((TokenType::Numeric, TokenValue::Numeric(digits_before, digits_after)))',
+                  'text': 'proof { assert(digits_after@.len() == 0 ==> digits_after@ =~= Seq::<char>::empty()); assert(is_digit_run(old(self).input@, old(self).position as int, mid)); }'}],
+     'ensures': [('wf', WF1), ('frame', FRAME),
+                 ('the_digits_written_before_and_after_the_point', 'r is Ok && r->Ok_0.0 is Numeric && r->Ok_0.1 is Numeric && numeric_literal(old(self).input@, old(self).position as int, r->Ok_0.1->Numeric_0@, r->Ok_0.1->Numeric_1@, final(self).position as int)')]},
+    {'kind': 'closure', 'src': L, 'path': "impl<'lexer> Lexer<'lexer>::fn read_next_token", 'key': 'lexer::Lexer::read_next_token#fraction', 'props': ['C06', 'C07'], 'auto_props': A + ['C07'], 'loops': 0, 'ret': 'r',
+     'closure_header': r"\['\.', ch, _, _, _, _, _, _, _, _, _, _\] if is_digit\(ch\) => \{",
+     'signature': 'pub fn fraction_token(&mut self) -> Result<(TokenType, TokenValue)>', 'impl_header': "impl<'lexer> Lexer<'lexer> {",
+     'body_prefix': 'proof { reveal_strlit("0"); }',
+     'requires': [('wf', WF0), ('at_a_point_before_a_digit', "old(self).position + 1 < old(self).input@.len() && old(self).input@[old(self).position as int] == '.' && g_digit(old(self).input@[old(self).position + 1])")],
+     'ensures': [('wf', WF1), ('frame', FRAME),
+                 ('zero_and_the_digits_after_the_point', "r is Ok && r->Ok_0.0 is Numeric && r->Ok_0.1 is Numeric && r->Ok_0.1->Numeric_0@ == seq!['0'] "
+                  '&& is_digit_run(old(self).input@, old(self).position + 1, final(self).position as int) && r->Ok_0.1->Numeric_1@ == old(self).input@.subrange(old(self).position + 1, final(self).position as int)')]},
+]
+
 BOUNDED = {
     'C06': [{'name': 'every-code-point-in-every-escape-spelling', 'driver': 'escapes', 'args': ['1'],
              'functions': ['Lexer::consume_string / consume_unicode / consume_unicode_literal through parse_expression'],
